@@ -251,6 +251,118 @@ def sources_phase():
     return total, bad
 
 
+def run_fileio(which, beh, tmpdir):
+    """replay one behaviour of spec/FileIO.tla on rxsci.io.file; returns the model's tuple"""
+    import io
+    import rxsci as rs
+    from rx.subject import Subject
+    import rxsci.io.file as F
+    path = os.path.join(tmpdir, 'f.bin')
+    if which == 'read':
+        _, _, content, size, dispose_at, _ = beh
+        with open(path, 'wb') as f:
+            f.write(bytes(content))
+        out, sub, count = [], [], [0]
+        sched = _ManualScheduler()
+
+        def on_next(v):
+            out.append(['n', list(v)])
+            count[0] += 1
+            if count[0] == dispose_at:
+                sub[0].dispose()
+        sub.append(F.read(path, mode='rb', size=size or None).subscribe(
+            on_next=on_next, on_error=lambda e: out.append(['e', 1]), on_completed=lambda: out.append(['c']),
+            scheduler=sched))
+        sched.run()
+        return out
+    _, _, items, size, err_at, target, _, _, _, _ = beh
+    if os.path.exists(path):
+        os.remove(path)
+    opened, out, state = [], [], {'closed': False, 'raised': False}
+    sink = None
+
+    def my_open(file, mode, encoding=None):
+        f = open(file, mode)
+        opened.append(f)
+        return f
+    if target == 'path':
+        tgt = path
+    elif target == 'object':
+        tgt = sink = io.BytesIO()
+    else:
+        tgt = os.path.join(tmpdir, 'no-such-dir', 'f.bin')
+
+    def ended(note):
+        out.append(note)
+        state['closed'] = opened[0].closed if opened else (sink.closed if sink is not None else False)
+    subj = Subject()
+    subj.pipe(F.write(tgt, open_obj=my_open)).subscribe(
+        on_next=lambda v: out.append(['n', 0]),
+        on_error=lambda e: ended(['e', 2 if isinstance(e, OSError) else e.args[0]]),
+        on_completed=lambda: ended(['c']))
+    try:
+        for j, it in enumerate(items):
+            if err_at == j:
+                break
+            subj.on_next(bytes(it))
+        if err_at == -1:
+            subj.on_completed()
+        else:
+            subj.on_error(_Boom(7))
+    except AttributeError:
+        state['raised'] = True
+    if target == 'path':
+        written = list(open(path, 'rb').read())
+    elif target == 'object':
+        written = list(sink.getvalue())
+    else:
+        written = []
+    if which == 'round':
+        out2 = []
+        F.read(path, mode='rb', size=size or None).subscribe(
+            on_next=lambda v: out2.append(['n', list(v)]), on_error=lambda e: out2.append(['e', 1]),
+            on_completed=lambda: out2.append(['c']))
+        return out2, written
+    return out, written, state['closed'], state['raised']
+
+
+def fileio_phase():
+    """spec/FileIO.tla: read / write / write-then-read of rxsci.io.file"""
+    jobs = []
+    for which, inv in (('read', ['ReadStatement', 'ReadPrefix']), ('write', ['WriteStatement']),
+                       ('round', ['RoundStatement'])):
+        c = dict(Which=which, Bytes={1, 2}, MaxLen=4 if which == 'read' else 2, MaxItems=3,
+                 Sizes={0, 1, 2, 3, 5})
+        jobs.append((which, c, inv))
+    rs_ = C.par([lambda c=c, inv=inv: C.run_tlc('FileIO', C.cfg(constants=c, invariants=inv + ['EmitBehaviour']),
+                                                 workers=2) for (_, c, inv) in jobs])
+    bad = total = 0
+    norm = lambda x: [[e[0], list(e[1])] if len(e) > 1 and isinstance(e[1], (list, tuple)) else list(e) for e in x]
+    with C.scratch('rxsci-verif.fio.') as d:
+        for (which, c, inv), r in zip(jobs, rs_):
+            if r.violated:
+                print('FileIO model violates %s for %s' % (r.violated, c))
+                return None, None
+            behs = C.extract_printed(r.stdout, 'BEH')
+            for b in behs:
+                total += 1
+                if which == 'read':
+                    model = norm(b[5])
+                    real = run_fileio(which, b, d)
+                elif which == 'write':
+                    model = (norm(b[6]), list(b[7]), b[8], b[9])
+                    real = run_fileio(which, b, d)
+                else:
+                    model = (norm(b[6]), list(b[7]))
+                    real = run_fileio(which, b, d)
+                if model != real:
+                    bad += 1
+                    if bad <= 5:
+                        print('EXTRA-MISMATCH fileio %s beh=%s model=%s real=%s' % (which, b[2:6], model, real))
+            print('fileio %s: %d states, %d behaviours replayed' % (which, r.distinct, len(behs)))
+    return total, bad
+
+
 def run_topology(order, ops):
     """replay one subscription order of spec/Topology.tla on the real with_store: every
     operator of the model is a harness operator that answers the topology probe with
@@ -386,6 +498,11 @@ def main():
         return 2
     total += t5
     bad += b5
+    t6, b6 = fileio_phase()
+    if t6 is None:
+        return 2
+    total += t6
+    bad += b6
     t4, b4 = topology_phase()
     if t4 is None:
         return 2
